@@ -357,6 +357,15 @@ namespace {
         return substitutions;
     }
 
+    // The most recently created term of a polynomial (terms are ordered by identity, the constant comes last).
+    // Sub-terms are created before the terms that contain them, so this term occurs inside no other term of the polynomial.
+    PTRef lastTermOf(LAPoly const & poly) {
+        assert(poly.size() > 0);
+        auto last = poly.end() - 1;
+        if (last->var == PTRef_Undef and last != poly.begin()) { --last; }
+        return last->var;
+    }
+
     PTRef polyToPTRefSubstitution(ArithLogic & logic, PTRef const var, LAPoly & poly) {
         if ((logic.hasUFs() or logic.hasArrays()) and logic.isVar(var)) {
             if (std::ranges::any_of(poly, [&logic](auto const & term) {
@@ -407,6 +416,10 @@ namespace {
             auto index = polyIndices[0];
             if (processedIndices.contains(index)) { continue; }
             auto & poly = zeroPolynomials[index];
+            if ((logic.hasUFs() or logic.hasArrays()) and var != lastTermOf(poly)) {
+                // the key could occur inside a more recently created term of its own value, e.g. h2(x) in h(h2(x))
+                continue;
+            }
             PTRef sub = polyToPTRefSubstitution(logic, var, poly);
             if (sub == PTRef_Undef) { continue; }
             substitutions.insert(var, sub);
@@ -453,11 +466,7 @@ lbool ArithLogic::arithmeticElimination(vec<PTRef> const & top_level_arith, Subs
         if (var == PTRef_Undef) { // 'c = 0' for some constant c; let the main loop deal with this
             continue;
         }
-        if (solveForLastTerm) {
-            auto last = poly.end() - 1;
-            if (last->var == PTRef_Undef) { --last; } // the constant term is ordered last
-            var = last->var;
-        }
+        if (solveForLastTerm) { var = lastTermOf(poly); }
         if (out_substitutions.has(var)) {
             // Already have a substitution for this variable; skip this equality, let the main loop deal with this
             continue;
